@@ -114,7 +114,8 @@ public:
     }
 };
 
-class HasSymbolVisitor : public BaseVisitor<HasSymbolVisitor, StopVisitor>
+class HasSymbolVisitor
+    : public BaseVisitor<HasSymbolVisitor, LocalStopVisitor>
 {
 protected:
     Ptr<const Basic> x_;
@@ -125,6 +126,7 @@ public:
 
     void bvisit(const Symbol &x)
     {
+        local_stop_ = false;
         if (eq(*x_, x)) {
             has_ = true;
             stop_ = true;
@@ -133,19 +135,52 @@ public:
 
     void bvisit(const FunctionSymbol &x)
     {
+        local_stop_ = false;
         if (eq(*x_, x)) {
             has_ = true;
             stop_ = true;
         }
     }
 
-    void bvisit(const Basic &x) {}
+    void bvisit(const Subs &x)
+    {
+        // The substituted variables are bound in the expression; they occur
+        // freely only through the points (same as in free_symbols).
+        bool bound = false;
+        for (const auto &var : x.get_variables()) {
+            if (eq(*x_, *var)) {
+                bound = true;
+            }
+        }
+        HasSymbolVisitor inner(x_);
+        bool found = false;
+        if (not bound) {
+            found = inner.apply(*x.get_arg());
+        }
+        for (const auto &p : x.get_point()) {
+            if (not found) {
+                found = inner.apply(*p);
+            }
+        }
+        if (found) {
+            has_ = true;
+            stop_ = true;
+        }
+        // the children have been dealt with here
+        local_stop_ = true;
+    }
+
+    void bvisit(const Basic &x)
+    {
+        local_stop_ = false;
+    }
 
     bool apply(const Basic &b)
     {
         has_ = false;
         stop_ = false;
-        preorder_traversal_stop(b, *this);
+        local_stop_ = false;
+        preorder_traversal_local_stop(b, *this);
         return has_;
     }
 };
